@@ -75,4 +75,33 @@ theorem mapM_char_rt (ss : List Nat) (h : ∀ s ∈ ss, s < 65) :
 theorem base64_rt (bs : List Nat) (h : ∀ b ∈ bs, b < 256) : decode (encode bs) = some bs := by
   simp only [decode, encode, mapM_char_rt _ (encChunks_le bs h), chunks_rt bs h]
 
+theorem sextetChar_not_space_lt : ∀ i, i < 65 → isSpace (sextetChar i) = false := by decide +kernel
+
+theorem sextetChar_not_space (i : Nat) : isSpace (sextetChar i) = false := by
+  by_cases h : i < 65
+  · exact sextetChar_not_space_lt i h
+  · have hl : table.length = 65 := by decide
+    have : sextetChar i = '=' := by
+      unfold sextetChar
+      rw [List.getD_eq_getElem?_getD, List.getElem?_eq_none (by omega)]
+      rfl
+    rw [this]; decide
+
+/-- the canonical encoding contains no white space -/
+theorem encode_no_space (bs : List Nat) : (encode bs).filter (fun c => !isSpace c) = encode bs := by
+  apply List.filter_eq_self.mpr
+  intro c hc
+  simp only [encode, List.mem_map] at hc
+  obtain ⟨i, _, rfl⟩ := hc
+  simp [sextetChar_not_space i]
+
+/-- **line-wrapped / grouped encodings**: any text that is the canonical encoding with white space
+inserted anywhere (between any two characters, before, after; any amount) reads as the same bytes -/
+theorem base64_ws_rt (bs : List Nat) (h : ∀ b ∈ bs, b < 256) (cs : List Char)
+    (hcs : cs.filter (fun c => !isSpace c) = encode bs) : decodeLenient cs = some bs := by
+  simp only [decodeLenient, hcs, base64_rt bs h]
+
+theorem base64_lenient_rt (bs : List Nat) (h : ∀ b ∈ bs, b < 256) : decodeLenient (encode bs) = some bs :=
+  base64_ws_rt bs h _ (encode_no_space bs)
+
 end Zeep.Base64
